@@ -16,9 +16,9 @@ RULE = ("n_wfs 1..4; per WFS a 0/1 mask on an n x n grid (n 2..7) from a drawn s
         "or an off-axis GS with a layer above ground, or an NGS/LGS mix. Distinct = canonical JSON.")
 ASSUMPTIONS = ["axis 'x' = first index of the pupil mask, (X,Y) guide-star offsets act on (first, second) mask axis; sub-aperture centre (i+1/2) d - D/2",
                "the code's rounded constant 0.17253 (vs 0.172629) is accepted (C08 checks the rounding band)",
-               "matrix stored in float32: entry tolerance 64*eps32 of the matrix scale; PSD: lambda_min >= -1e-5 lambda_max"]
+               "matrix stored in float32: entry tolerance 16*eps32 of the matrix scale; PSD: lambda_min >= -1e-5 lambda_max"]
 
-TOL = 64 * EPS32
+TOL = 16 * EPS32       # float32 accumulation over the layers (measured 2.5 eps32); was 64 eps32 while the matrix was mirrored by a bitwise OR
 KF_B = "C01-unequal-projected-diameters"
 
 
@@ -79,6 +79,13 @@ def geometry(draw, max_wfs=4, max_n=7, max_layers=3):
     gspos = [[0.0, 0.0] if pos_mode == "on_axis" else [draw(st.sampled_from([0.0, -120.0, -33.0, 7.5, 20.0, 60.0, 120.0])), draw(st.sampled_from([0.0, -60.0, -10.0, 15.0, 45.0, 120.0]))] for _ in range(n_wfs)]
     wl_mode = draw(st.booleans())
     wls = [500e-9 if not wl_mode else draw(st.sampled_from([400e-9, 589e-9, 1.65e-6, 2.2e-6])) for _ in range(n_wfs)]
+    # the covariance is proportional to the product of the wavelengths: with wavelengths given in microns or nanometres the
+    # slopes simply come out in other units (a common convention), the same numbers times 1e12 / 1e18
+    wl_unit = draw(st.sampled_from([1.0, 1.0, 1e6, 1e9]))
+    wls = [w * wl_unit for w in wls]
+    # whole-metre sub-apertures given as Python ints
+    if all(float(d).is_integer() for d in diams) and draw(st.booleans()):
+        diams = [int(d) for d in diams]
     n_layers = draw(st.integers(1, max_layers))
     hmax = min([a for a in alts if a] + [40e3]) * 0.45
     layer_alts = sorted(draw(st.sampled_from([0.0, 0.0, 500.0, 4000.0, 9000.0, 20000.0])) for _ in range(n_layers))
@@ -133,6 +140,9 @@ def classes_of(cfg):
     offaxis = any(any(p) for p in cfg["gs_positions"]) and any(h > 0 for h in cfg["layer_altitudes"])
     cl.append("offaxis_at_altitude" if offaxis else "no_parallax")
     cl.append("args_" + cfg.get("arg_types", "lists"))
+    cl.append("wavelengths_SI" if max(cfg["wfs_wavelengths"]) < 1e-3 else "wavelengths_in_microns_or_nm")
+    if all(isinstance(d, int) for d in cfg["subap_diameters"]):
+        cl.append("integer_subap_diameters")
     cl.append("surplus_entries" if cfg.get("surplus") else "exact_lengths")
     cl.append("L0_over_r0_gt_1e5" if any(L / r > 1e5 for L, r in zip(cfg["layer_L0s"], cfg["layer_r0s"])) else "L0_over_r0_le_1e5")
     return cl, offaxis
